@@ -84,7 +84,7 @@ func BufReadonly(w *World, pkgs ...string) *report.RuleResult {
 							full = types.TypeString(com.Value.Type(), shortQual) + "." + com.Method.Name()
 						}
 						res.Count("external-sinks", 1)
-						if !readOnlyExternal[full] && !readOnlyInvoke[full] {
+						if !readOnlyExt(full, callee) && !readOnlyInvoke[full] {
 							flag("extcall:"+full, in, "passes byte slice "+Expr(a)+" to "+full+", which is not in the reviewed read-only set")
 						}
 					}
